@@ -5,7 +5,7 @@ import Chewing.Proofs.TrieShape
 A table that passed `validate_index` (`validate t = true`) is a forest laid out in index order:
 children after their parent (`Forward`), no leaf record inside a child range (`NoZeroChild`), the child
 ranges of node records ascending with the record index (`Mono`), hence pairwise disjoint
-(`DisjointRanges`), every child range inside the table.
+(`DisjointRanges`), every child range inside the table, every node syllable a valid code (`ValidSyls`).
 -/
 namespace Chewing.TrieWalk
 open Chewing.TrieValidate
@@ -45,7 +45,7 @@ theorem valid_node {t : Tbl P} (hv : validate t = true) {i : Nat} (hi : i < t.n)
     (∀ j, (t.get i).a < j → j < (t.get i).a + (t.get i).b → (t.get j).s ≠ 0) ∧
     ∀ i', i < i' → i' < t.n → NodeIsh t i' → (t.get i).a + (t.get i).b ≤ (t.get i').a := by
   have hl : i < t.rec3.length := by rw [rec3_length]; exact hi
-  obtain ⟨h1, h2, h3, h4⟩ := scan_sound t.rec3 0 1 hv i hl ((isNode_iff t hi hl).mpr hn)
+  obtain ⟨h1, h2, h3, h4⟩ := scan_sound t.rec3 0 1 (validate_scan hv) i hl ((isNode_iff t hi hl).mpr hn)
   rw [rec3_get t hi hl] at h1 h2 h3 h4
   simp only [Nat.zero_add, rec3_length] at h1 h2
   refine ⟨h1, h2, ?_, ?_⟩
@@ -57,6 +57,18 @@ theorem valid_node {t : Tbl P} (hv : validate t = true) {i : Nat} (hi : i < t.n)
     have := h4 i' hl' hlt ((isNode_iff t hi' hl').mpr hn')
     rw [rec3_get t hi' hl'] at this
     exact this
+
+/-- the syllable check of `validate_index` (since the repair of C13's F47): the syllable field of every node
+    record other than the root is a value `Syllable::try_from` accepts -/
+theorem valid_syl {t : Tbl P} (hv : validate t = true) {i : Nat} (h0 : 0 < i) (hi : i < t.n)
+    (hs : (t.get i).s ≠ 0) : validCode (t.get i).s = true := by
+  have := validate_syls hv i h0 (by rw [rec3_length]; exact hi) (by rw [sylAt_rec3]; exact hs)
+  rwa [sylAt_rec3] at this
+
+theorem valid_validSyls {t : Tbl P} (hv : validate t = true) : ValidSyls t := by
+  intro i hi hn _ j h1 h2 hs
+  obtain ⟨ha, hb, _, _⟩ := valid_node hv hi hn
+  exact valid_syl hv (by omega) (by omega) hs
 
 theorem valid_allInside {t : Tbl P} (hv : validate t = true) : AllInside t :=
   fun _ hi hn => ⟨(valid_node hv hi hn).1, (valid_node hv hi hn).2.1⟩
@@ -82,7 +94,7 @@ theorem valid_disjoint {t : Tbl P} (hv : validate t = true) : DisjointRanges t :
 theorem valid_leaf {t : Tbl P} (hv : validate t = true) {i : Nat} (hi : i < t.n) (hn : ¬ NodeIsh t i) :
     (t.get i).a + (t.get i).b ≤ t.dataLen := by
   have hl : i < t.rec3.length := by rw [rec3_length]; exact hi
-  have := scan_leaf t.rec3 0 1 hv i hl (fun h => hn ((isNode_iff t hi hl).mp h))
+  have := scan_leaf t.rec3 0 1 (validate_scan hv) i hl (fun h => hn ((isNode_iff t hi hl).mp h))
   rw [rec3_get t hi hl] at this
   exact this
 
